@@ -1,2 +1,351 @@
-//! Program-text facts (C18/C19/C20): filled in below.
-pub fn emit(_repo: &str, _outdir: &str) -> Result<(), String> { Ok(()) }
+//! Program-text facts (C18/C19/C20), regenerated from every `.rs` file under miniz_oxide/src:
+//! cfg guards of items and what they mention, `unsafe` tokens (token level: includes code that
+//! is compiled out), crate attributes, the module tree, struct fields with their types and
+//! serde attributes, `big_array!` lengths, reset/constructor field assignments.
+use proc_macro2::{TokenStream, TokenTree};
+use quote::ToTokens;
+use std::collections::BTreeMap;
+use std::fmt::Write as _;
+use syn::*;
+
+#[derive(Clone, Debug)]
+enum C { Tt, Atom(usize), Not(Box<C>), And(Box<C>, Box<C>), Or(Box<C>, Box<C>) }
+impl C {
+    fn lean(&self) -> String {
+        match self { C::Tt => ".tt".into(), C::Atom(i) => format!("(.atom {})", i), C::Not(c) => format!("(.not {})", c.lean()), C::And(a, b) => format!("(.and {} {})", a.lean(), b.lean()), C::Or(a, b) => format!("(.or {} {})", a.lean(), b.lean()) }
+    }
+    fn and(a: C, b: C) -> C { match (&a, &b) { (C::Tt, _) => b, (_, C::Tt) => a, _ => C::And(Box::new(a), Box::new(b)) } }
+}
+
+struct Atoms { names: Vec<String> }
+impl Atoms {
+    fn id(&mut self, s: &str) -> usize { if let Some(i) = self.names.iter().position(|x| x == s) { i } else { self.names.push(s.to_string()); self.names.len() - 1 } }
+}
+
+fn cfg_of_meta(m: &Meta, atoms: &mut Atoms) -> C {
+    match m {
+        Meta::Path(p) => C::Atom(atoms.id(&p.to_token_stream().to_string())),
+        Meta::NameValue(nv) => {
+            let k = nv.path.to_token_stream().to_string();
+            let v = nv.value.to_token_stream().to_string().replace('"', "");
+            C::Atom(atoms.id(&if k == "feature" { v } else { format!("{}={}", k, v) }))
+        }
+        Meta::List(l) => {
+            let name = l.path.to_token_stream().to_string();
+            let inner: Vec<Meta> = l.parse_args_with(punctuated::Punctuated::<Meta, Token![,]>::parse_terminated).map(|p| p.into_iter().collect()).unwrap_or_default();
+            let parts: Vec<C> = inner.iter().map(|m| cfg_of_meta(m, atoms)).collect();
+            match name.as_str() {
+                "not" => C::Not(Box::new(parts.into_iter().next().unwrap_or(C::Tt))),
+                "all" => parts.into_iter().fold(C::Tt, C::and),
+                "any" => { let mut it = parts.into_iter(); let first = it.next().unwrap_or(C::Not(Box::new(C::Tt))); it.fold(first, |a, b| C::Or(Box::new(a), Box::new(b))) }
+                _ => C::Atom(atoms.id(&name)),
+            }
+        }
+    }
+}
+
+fn guard_of(attrs: &[Attribute], atoms: &mut Atoms) -> C {
+    let mut g = C::Tt;
+    for a in attrs { if a.path().is_ident("cfg") { if let Ok(m) = a.parse_args::<Meta>() { g = C::and(g, cfg_of_meta(&m, atoms)); } } }
+    g
+}
+
+fn scan(ts: TokenStream, alloc: &mut bool, std: &mut bool, uns: &mut usize) {
+    for t in ts {
+        match t {
+            TokenTree::Group(g) => scan(g.stream(), alloc, std, uns),
+            TokenTree::Ident(i) => {
+                let s = i.to_string();
+                if matches!(s.as_str(), "alloc" | "Vec" | "Box" | "vec" | "String" | "ToString" | "format" | "Rc" | "Arc") { *alloc = true; }
+                if s == "std" { *std = true; }
+                if s == "unsafe" { *uns += 1; }
+            }
+            _ => {}
+        }
+    }
+}
+
+struct Out { items: Vec<String>, n_items: usize }
+
+fn item_attrs(it: &Item) -> Vec<Attribute> {
+    match it {
+        Item::Const(x) => x.attrs.clone(), Item::Enum(x) => x.attrs.clone(), Item::ExternCrate(x) => x.attrs.clone(), Item::Fn(x) => x.attrs.clone(),
+        Item::Impl(x) => x.attrs.clone(), Item::Macro(x) => x.attrs.clone(), Item::Mod(x) => x.attrs.clone(), Item::Static(x) => x.attrs.clone(),
+        Item::Struct(x) => x.attrs.clone(), Item::Trait(x) => x.attrs.clone(), Item::Type(x) => x.attrs.clone(), Item::Use(x) => x.attrs.clone(), _ => vec![],
+    }
+}
+
+fn push_item(out: &mut Out, file: usize, line: usize, guard: &C, ts: TokenStream) {
+    let (mut a, mut s, mut u) = (false, false, 0usize);
+    scan(ts, &mut a, &mut s, &mut u);
+    out.items.push(format!("  {{ file := {}, line := {}, guard := {}, alloc := {}, std := {}, unsafeTok := {} }}", file, line, guard.lean(), a, s, u));
+    out.n_items += 1;
+}
+
+fn walk_items(items: &[Item], file: usize, outer: &C, atoms: &mut Atoms, out: &mut Out) {
+    for it in items {
+        let g = C::and(outer.clone(), guard_of(&item_attrs(it), atoms));
+        let line = syn::spanned::Spanned::span(it).start().line;
+        match it {
+            Item::Mod(m) => {
+                if let Some((_, inner)) = &m.content { walk_items(inner, file, &g, atoms, out); }
+                else { push_item(out, file, line, &g, it.to_token_stream()); }
+            }
+            Item::Impl(im) => {
+                // the impl header (types it names) and every member with its own guard
+                let mut header = im.clone(); header.items.clear();
+                push_item(out, file, line, &g, header.to_token_stream());
+                for ii in &im.items {
+                    let attrs = match ii { ImplItem::Fn(f) => f.attrs.clone(), ImplItem::Const(c) => c.attrs.clone(), ImplItem::Type(t) => t.attrs.clone(), _ => vec![] };
+                    let gi = C::and(g.clone(), guard_of(&attrs, atoms));
+                    push_item(out, file, syn::spanned::Spanned::span(ii).start().line, &gi, ii.to_token_stream());
+                }
+            }
+            Item::Struct(s) => {
+                // fields may carry their own cfg
+                let mut header = s.clone();
+                if let Fields::Named(n) = &mut header.fields { n.named.clear(); }
+                push_item(out, file, line, &g, header.to_token_stream());
+                for f in s.fields.iter() { let gf = C::and(g.clone(), guard_of(&f.attrs, atoms)); push_item(out, file, syn::spanned::Spanned::span(f).start().line, &gf, f.to_token_stream()); }
+            }
+            Item::Fn(f) => {
+                // statements inside a function may be individually guarded (e.g. `#[cfg(feature = …)] if …`)
+                push_item(out, file, line, &g, f.sig.to_token_stream());
+                for st in &f.block.stmts {
+                    let attrs: Vec<Attribute> = match st { Stmt::Local(l) => l.attrs.clone(), Stmt::Expr(e, _) => expr_attrs(e), Stmt::Macro(m) => m.attrs.clone(), Stmt::Item(i) => item_attrs(i) };
+                    let gs = C::and(g.clone(), guard_of(&attrs, atoms));
+                    push_item(out, file, syn::spanned::Spanned::span(st).start().line, &gs, st.to_token_stream());
+                }
+            }
+            _ => push_item(out, file, line, &g, it.to_token_stream()),
+        }
+    }
+}
+
+fn expr_attrs(e: &Expr) -> Vec<Attribute> {
+    match e { Expr::If(x) => x.attrs.clone(), Expr::Block(x) => x.attrs.clone(), Expr::Match(x) => x.attrs.clone(), Expr::Call(x) => x.attrs.clone(), Expr::MethodCall(x) => x.attrs.clone(), Expr::Assign(x) => x.attrs.clone(), Expr::Macro(x) => x.attrs.clone(), _ => vec![] }
+}
+
+fn list_rs(dir: &std::path::Path, out: &mut Vec<std::path::PathBuf>) {
+    let mut es: Vec<_> = std::fs::read_dir(dir).map(|r| r.filter_map(|e| e.ok()).map(|e| e.path()).collect()).unwrap_or_default();
+    es.sort();
+    for p in es { if p.is_dir() { list_rs(&p, out); } else if p.extension().map(|e| e == "rs").unwrap_or(false) { out.push(p); } }
+}
+
+/// `len_term`: resolve an array length expression of `file` to a Lean term over Gen.* constants.
+pub fn emit(repo: &str, outdir: &str, len_term: &mut dyn FnMut(&str, &Expr) -> Option<String>) -> std::result::Result<(), String> {
+    let src = std::path::Path::new(repo).join("miniz_oxide/src");
+    let mut paths = vec![]; list_rs(&src, &mut paths);
+    let rel = |p: &std::path::Path| p.strip_prefix(&src).unwrap().to_string_lossy().to_string();
+    let files: Vec<String> = paths.iter().map(|p| rel(p)).collect();
+    let fid = |name: &str| files.iter().position(|f| f == name);
+    let mut atoms = Atoms { names: vec!["with-alloc".into(), "std".into(), "serde".into(), "block-boundary".into(), "simd".into(), "rustc-dep-of-std".into(), "test".into()] };
+    let mut parsed: Vec<(usize, File)> = vec![];
+    let mut file_unsafe: Vec<(usize, usize)> = vec![];
+    for (i, p) in paths.iter().enumerate() {
+        let text = std::fs::read_to_string(p).map_err(|e| e.to_string())?;
+        // token-level scan of the whole file (covers everything that lexes, including cfg'd-out code)
+        let ts: TokenStream = text.parse().map_err(|e| format!("{}: {}", files[i], e))?;
+        let (mut a, mut s, mut u) = (false, false, 0usize); scan(ts, &mut a, &mut s, &mut u);
+        file_unsafe.push((i, u));
+        parsed.push((i, syn::parse_file(&text).map_err(|e| format!("{}: {}", files[i], e))?));
+    }
+    // module tree
+    let mut decls: Vec<(usize, usize, C)> = vec![];
+    let mut file_guard: BTreeMap<usize, C> = BTreeMap::new();
+    let root = fid("lib.rs").ok_or("lib.rs not found")?;
+    file_guard.insert(root, C::Tt);
+    let mut work = vec![root];
+    while let Some(f) = work.pop() {
+        let fg = file_guard[&f].clone();
+        let ast = &parsed.iter().find(|(i, _)| *i == f).unwrap().1;
+        let dir = std::path::Path::new(&files[f]).parent().map(|p| p.to_path_buf()).unwrap_or_default();
+        let stem = std::path::Path::new(&files[f]).file_stem().unwrap().to_string_lossy().to_string();
+        let base = if stem == "mod" || stem == "lib" { dir.clone() } else { dir.join(&stem) };
+        fn mods<'a>(items: &'a [Item], outer: C, atoms: &mut Atoms, acc: &mut Vec<(String, C)>) {
+            for it in items { if let Item::Mod(m) = it { let g = C::and(outer.clone(), guard_of(&m.attrs, atoms)); if let Some((_, inner)) = &m.content { mods(inner, g, atoms, acc); } else { acc.push((m.ident.to_string(), g)); } } }
+        }
+        let mut acc = vec![]; mods(&ast.items, C::Tt, &mut atoms, &mut acc);
+        for (name, g) in acc {
+            let c1 = base.join(format!("{}.rs", name)).to_string_lossy().to_string();
+            let c2 = base.join(&name).join("mod.rs").to_string_lossy().to_string();
+            let child = fid(&c1).or_else(|| fid(&c2));
+            match child { Some(c) => { let full = C::and(fg.clone(), g.clone()); decls.push((f, c, g)); if !file_guard.contains_key(&c) { file_guard.insert(c, full); work.push(c); } } None => return Err(format!("module `{}` declared in {} has no file", name, files[f])) }
+        }
+    }
+    // crate attributes of the root
+    let root_ast = &parsed.iter().find(|(i, _)| *i == root).unwrap().1;
+    let mut forbid = false; let mut no_std = C::Not(Box::new(C::Tt));
+    for a in &root_ast.attrs {
+        let s = a.to_token_stream().to_string().replace(' ', "");
+        if s == "#![forbid(unsafe_code)]" { forbid = true; }
+        if s == "#![no_std]" { no_std = C::Tt; }
+        if a.path().is_ident("cfg_attr") {
+            if let Ok(list) = a.parse_args_with(punctuated::Punctuated::<Meta, Token![,]>::parse_terminated) {
+                let v: Vec<Meta> = list.into_iter().collect();
+                if v.len() >= 2 && v[1..].iter().any(|m| m.to_token_stream().to_string() == "no_std") { no_std = cfg_of_meta(&v[0], &mut atoms); }
+            }
+        }
+    }
+    // items
+    let mut out = Out { items: vec![], n_items: 0 };
+    for (i, ast) in &parsed {
+        let fg = file_guard.get(i).cloned().unwrap_or(C::Tt);
+        walk_items(&ast.items, *i, &fg, &mut atoms, &mut out);
+    }
+    // structs and enums
+    let mut type_names: Vec<String> = vec![];
+    let mut field_names: Vec<String> = vec![];
+    let mut tid = |n: &str, v: &mut Vec<String>| -> usize { if let Some(i) = v.iter().position(|x| x == n) { i } else { v.push(n.to_string()); v.len() - 1 } };
+    let mut decl_types: Vec<(String, usize)> = vec![];
+    for (i, ast) in &parsed { fn coll(items: &[Item], i: usize, acc: &mut Vec<(String, usize)>) { for it in items { match it { Item::Struct(s) => acc.push((s.ident.to_string(), i)), Item::Enum(e) => acc.push((e.ident.to_string(), i)), Item::Mod(m) => { if m.ident != "test" && m.ident != "tests" { if let Some((_, inner)) = &m.content { coll(inner, i, acc); } } } _ => {} } } } coll(&ast.items, *i, &mut decl_types); }
+    for (n, _) in &decl_types { tid(n, &mut type_names); }
+    fn derives(attrs: &[Attribute]) -> (bool, bool) {
+        let mut clone = false; let mut serde = false;
+        for a in attrs {
+            let s = a.to_token_stream().to_string();
+            if (a.path().is_ident("derive") || a.path().is_ident("cfg_attr")) && s.contains("derive") {
+                if s.contains("Clone") { clone = true; }
+                if s.contains("Serialize") && s.contains("Deserialize") { serde = true; }
+            }
+        }
+        (clone, serde)
+    }
+    let mut structs: Vec<String> = vec![];
+    let mut ty_of = |t: &Type, file: usize, type_names: &mut Vec<String>, len_term: &mut dyn FnMut(&str, &Expr) -> Option<String>| -> String {
+        fn go(t: &Type, fname: &str, type_names: &mut Vec<String>, len_term: &mut dyn FnMut(&str, &Expr) -> Option<String>) -> String {
+            match t {
+                Type::Array(a) => { let l = len_term(fname, &a.len).unwrap_or_else(|| "(-1)".into()); format!("(.arr {} {})", go(&a.elem, fname, type_names, len_term), l) }
+                Type::Paren(p) => go(&p.elem, fname, type_names, len_term),
+                Type::Path(p) if p.qself.is_none() => {
+                    let last = p.path.segments.last().unwrap();
+                    let n = last.ident.to_string();
+                    if matches!(n.as_str(), "u8" | "u16" | "u32" | "u64" | "usize" | "i8" | "i16" | "i32" | "i64" | "isize" | "bool" | "BitBuffer") { return ".prim".into(); }
+                    if n == "Box" { if let PathArguments::AngleBracketed(ab) = &last.arguments { if let Some(GenericArgument::Type(inner)) = ab.args.first() { return format!("(.box {})", go(inner, fname, type_names, len_term)); } } return ".other".into(); }
+                    if !matches!(last.arguments, PathArguments::None) { return ".other".into(); }
+                    if let Some(i) = type_names.iter().position(|x| *x == n) { return format!("(.named {})", i); }
+                    ".other".into()
+                }
+                _ => ".other".into(),
+            }
+        }
+        let fname = file.to_string();
+        go(t, &fname, type_names, len_term)
+    };
+    let mut big_lens: Vec<String> = vec![];
+    for (i, ast) in &parsed {
+        fn visit<'a>(items: &'a [Item], acc: &mut Vec<&'a Item>) { for it in items { match it { Item::Mod(m) => { if m.ident != "test" && m.ident != "tests" { if let Some((_, inner)) = &m.content { visit(inner, acc); } } } _ => acc.push(it) } } }
+        let mut its = vec![]; visit(&ast.items, &mut its);
+        for it in its {
+            match it {
+                Item::Struct(s) => {
+                    let (cl, se) = derives(&s.attrs);
+                    let id = tid(&s.ident.to_string(), &mut type_names);
+                    let mut fs = vec![];
+                    for f in s.fields.iter() {
+                        // fields added by the verification hooks are not part of the crate under study
+                        if f.attrs.iter().any(|a| a.path().is_ident("cfg") && a.to_token_stream().to_string().contains("miniz_oxide_verif")) { continue; }
+                        let name = f.ident.as_ref().map(|x| x.to_string()).unwrap_or_default();
+                        let at: String = f.attrs.iter().map(|a| a.to_token_stream().to_string()).collect::<Vec<_>>().join(" ");
+                        let big = at.contains("serde") && at.contains("BigArray");
+                        let skip = at.contains("serde") && at.contains("skip");
+                        let fi = tid(&name, &mut field_names);
+                        fs.push(format!("{{ name := {}, ty := {}, bigArray := {}, serdeSkip := {} }}", fi, ty_of(&f.ty, *i, &mut type_names, len_term), big, skip));
+                    }
+                    structs.push(format!("  {{ id := {}, file := {}, deriveClone := {}, deriveSerde := {}, isEnum := false, unitOnly := false, fields := [{}] }}", id, i, cl, se, fs.join(", ")));
+                }
+                Item::Enum(e) => {
+                    let (cl, se) = derives(&e.attrs);
+                    let id = tid(&e.ident.to_string(), &mut type_names);
+                    let unit = e.variants.iter().all(|v| matches!(v.fields, Fields::Unit));
+                    structs.push(format!("  {{ id := {}, file := {}, deriveClone := {}, deriveSerde := {}, isEnum := true, unitOnly := {}, fields := [] }}", id, i, cl, se, unit));
+                }
+                Item::Macro(m) if m.mac.path.is_ident("big_array") => {
+                    let parser = punctuated::Punctuated::<Expr, Token![,]>::parse_terminated;
+                    if let Ok(list) = parse::Parser::parse2(parser, m.mac.tokens.clone()) { for e in list { if let Some(t) = len_term(&i.to_string(), &e) { big_lens.push(t); } } }
+                }
+                _ => {}
+            }
+        }
+    }
+    // reset / constructor bodies: which fields of the receiver a method assigns (or resets through a
+    // method call on the field), and which other reset it delegates to
+    let mut resets: Vec<String> = vec![];
+    {
+        fn root_field(e: &Expr, recv: &[&str]) -> Option<String> {
+            match e {
+                Expr::Field(f) => {
+                    if let Expr::Path(p) = &*f.base { if p.path.segments.len() == 1 && recv.contains(&p.path.segments[0].ident.to_string().as_str()) { if let Member::Named(n) = &f.member { return Some(n.to_string()); } } }
+                    root_field(&f.base, recv)
+                }
+                Expr::Unary(u) => root_field(&u.expr, recv),
+                Expr::Paren(p) => root_field(&p.expr, recv),
+                Expr::MethodCall(m) => root_field(&m.receiver, recv),
+                Expr::Index(i) => root_field(&i.expr, recv),
+                _ => None,
+            }
+        }
+        let wanted: [(&str, &str, &str); 8] = [("ParamsOxide", "reset", "ParamsOxide"), ("DictOxide", "reset", "DictOxide"), ("CompressorOxide", "reset", "CompressorOxide"), ("HashBuffers", "reset", "HashBuffers"),
+            ("ResetPolicy for MinReset", "reset", "InflateState"), ("ResetPolicy for ZeroReset", "reset", "InflateState"), ("ResetPolicy for FullReset", "reset", "InflateState"), ("DecompressorOxide", "init", "DecompressorOxide")];
+        for (_, ast) in &parsed {
+            fn impls<'a>(items: &'a [Item], acc: &mut Vec<&'a ItemImpl>) { for it in items { match it { Item::Impl(i) => acc.push(i), Item::Mod(m) => { if m.ident != "test" && m.ident != "tests" { if let Some((_, inner)) = &m.content { impls(inner, acc); } } } _ => {} } } }
+            let mut is = vec![]; impls(&ast.items, &mut is);
+            for im in is {
+                let st = im.self_ty.to_token_stream().to_string().replace(' ', "");
+                let name = match &im.trait_ { Some((_, p, _)) => format!("{} for {}", p.to_token_stream().to_string().replace(' ', ""), st), None => st.clone() };
+                for ii in &im.items {
+                    if let ImplItem::Fn(f) = ii {
+                        for (iname, mname, target) in wanted.iter() {
+                            if name == *iname && f.sig.ident == *mname {
+                                let mut assigned: Vec<String> = vec![]; let mut delegates: Vec<String> = vec![];
+                                for stt in &f.block.stmts {
+                                    if let Stmt::Expr(e, _) = stt {
+                                        match e {
+                                            Expr::Assign(a) => { if let Some(fl) = root_field(&a.left, &["self", "state"]) { assigned.push(fl); } }
+                                            Expr::MethodCall(m) => {
+                                                if let Some(fl) = root_field(&m.receiver, &["self", "state"]) { assigned.push(fl); }
+                                                else if let Expr::Path(p) = &*m.receiver { delegates.push(p.path.segments.last().unwrap().ident.to_string()); }
+                                                else if let Expr::MethodCall(inner) = &*m.receiver { if let Some(fl) = root_field(&inner.receiver, &["self", "state"]) { let _ = fl; } if inner.method == "decompressor" { assigned.push("decomp".into()); } }
+                                            }
+                                            _ => {}
+                                        }
+                                    }
+                                }
+                                let ids: Vec<String> = assigned.iter().map(|n| tid(n, &mut field_names).to_string()).collect();
+                                let key = st.clone();
+                                let del: Vec<String> = delegates.iter().map(|d| tid(d, &mut type_names).to_string()).collect();
+                                resets.push(format!("  ({}, {}, [{}], [{}])", tid(&key, &mut type_names), tid(target, &mut type_names), ids.join(", "), del.join(", ")));
+                            }
+                        }
+                    }
+                }
+            }
+        }
+    }
+    let mut s = String::new();
+    s.push_str("/-\nREGENERATED by /verif/translator (facts.rs) from every .rs file under /repo/miniz_oxide/src.\nDo not edit.\n-/\nimport MinizProof.Model.ProgramText\nimport MinizProof.Gen.All\nset_option maxRecDepth 100000\nnamespace Gen.Facts\nopen PT\n\n");
+    writeln!(s, "def atomNames : List String := [{}]", atoms.names.iter().map(|x| format!("\"{}\"", x)).collect::<Vec<_>>().join(", ")).unwrap();
+    writeln!(s, "def fileNames : List String := [{}]", files.iter().map(|x| format!("\"{}\"", x)).collect::<Vec<_>>().join(", ")).unwrap();
+    writeln!(s, "def typeNames : List String := [{}]", type_names.iter().map(|x| format!("\"{}\"", x)).collect::<Vec<_>>().join(", ")).unwrap();
+    writeln!(s, "def fieldNames : List String := [{}]", field_names.iter().map(|x| format!("\"{}\"", x)).collect::<Vec<_>>().join(", ")).unwrap();
+    writeln!(s, "def nFiles : Nat := {}", files.len()).unwrap();
+    writeln!(s, "def rootFile : Nat := {}", root).unwrap();
+    writeln!(s, "/-- `unsafe` tokens per file (whole-file token scan, includes compiled-out code) -/\ndef fileUnsafe : List (Nat × Nat) := [{}]", file_unsafe.iter().map(|(a, b)| format!("({}, {})", a, b)).collect::<Vec<_>>().join(", ")).unwrap();
+    writeln!(s, "/-- `#![forbid(unsafe_code)]` present unconditionally at the crate root -/\ndef rootForbidUnsafe : Bool := {}", forbid).unwrap();
+    writeln!(s, "/-- condition under which `#![no_std]` applies -/\ndef rootNoStd : Cfg := {}", no_std.lean()).unwrap();
+    writeln!(s, "/-- `mod` declarations: (parent file, child file, guard on the declaration) -/\ndef modDecls : List (Nat × Nat × Cfg) := [{}]", decls.iter().map(|(a, b, c)| format!("({}, {}, {})", a, b, c.lean())).collect::<Vec<_>>().join(", ")).unwrap();
+    writeln!(s, "def items : List Item := [\n{}\n]", out.items.join(",\n")).unwrap();
+    writeln!(s, "def structs : List Struct := [\n{}\n]", structs.join(",\n")).unwrap();
+    writeln!(s, "/-- reset bodies: (type whose `reset`/`init` it is, struct it acts on, fields assigned or reset, resets delegated to) -/\ndef resets : List (Nat × Nat × List Nat × List Nat) := [\n{}\n]", resets.join(",\n")).unwrap();
+    writeln!(s, "/-- lengths listed in `big_array! {{ … }}` -/\ndef bigArrayLens : List Int := [{}]", big_lens.join(", ")).unwrap();
+    let ty = |n: &str| type_names.iter().position(|x| x == n).map(|i| i.to_string()).unwrap_or("9999".into());
+    for n in ["DecompressorOxide", "HuffmanTable", "InflateState", "CompressorOxide", "BlockBoundaryState", "ParamsOxide", "DictOxide", "LZOxide", "HuffmanOxide", "HashBuffers", "LocalBuf", "State", "TINFLStatus", "DataFormat", "TDEFLFlush", "TDEFLStatus", "MinReset", "ZeroReset", "FullReset"] {
+        writeln!(s, "def ty_{} : Nat := {}", n, ty(n)).unwrap();
+    }
+    for n in ["flags", "greedy_parsing", "window_bits_max", "max_probes", "loop_len", "dict", "data_format", "decomp", "dict_ofs", "dict_avail", "first_call", "has_flushed", "last_status", "state", "lz", "params", "huff", "next", "hash", "local_buf"] {
+        writeln!(s, "def fld_{} : Nat := {}", n, field_names.iter().position(|x| x == n).map(|i| i.to_string()).unwrap_or("9999".into())).unwrap();
+    }
+    s.push_str("\nend Gen.Facts\n");
+    std::fs::write(format!("{}/Facts.lean", outdir), s).map_err(|e| e.to_string())?;
+    Ok(())
+}
